@@ -125,7 +125,8 @@ Fixpoint conv_norep (legacy : bool) (npop : Z) (segs : list seg) (c : Z) (start 
   | s :: r =>
     if (pop s <? 0) || (npop <=? pop s) then Err E_Key else
     match pt_get t (pop s) with
-    | None =>   (* defaultdict: empty list, shuffle of [] draws nothing we record *)
+    | None      (* defaultdict: empty list, shuffle of [] draws nothing we record *)
+    | Some [] => (* a label whose sample list is present but empty: the same *)
         Err E_Exception
     | Some _ =>
       match shuf with
